@@ -446,6 +446,8 @@ class Gen:
             it = {'id': self.nid('S'), 'kind': 'source', 'ct': ct, 'budget': budget,
                   'values': [rng.choice(p['values']) for _ in range(rng.randint(1, 4))],
                   'qualities': [rng.choice(p['qualities']) for _ in range(rng.randint(1, 3))]}
+            if rng.random() < p.get('p_falsy', 0.12):
+                it['falsy'] = True          # its parts are instances of a Part subclass whose __len__ is 0
             if rng.random() < p['p_batch_source']:
                 it['batch'] = [rng.choice([0, 1, 2, 3, 3, 5, 7]) for _ in range(rng.randint(1, 4))]
                 if rng.random() < 0.35:
